@@ -1,5 +1,6 @@
 import Driver.Common
 import Canopy.Model.Store
+import Canopy.Model.Indexer
 /-! Driver for C10/M-store: stateful; one op line in, one canonical result line out.
 The state is the *implementation model* (`Canopy.Store.State`: physical pebble key list, txn layers,
 copies, held read-only views). -/
@@ -21,7 +22,7 @@ def parseBool (s : String) : Option Bool :=
 
 /-- state changes go through `State.apply` (the function the C10 theorems are about); the result line
 only reports what the real API reports -/
-def step (s : State) (line : String) : State × String :=
+def stepSt (s : State) (line : String) : State × String :=
   let bad := (s, "bad-op")
   match words line with
   | ["set", k, v] =>
@@ -107,6 +108,72 @@ def step (s : State) (line : String) : State × String :=
   | ["version"] => (s, "ok " ++ toString s.version)
   | _ => bad
 
+def showBlk (b : BlockRes) : String :=
+  "blk " ++ toString b.hHeight ++ " " ++ hexOrDash b.hash ++ " n " ++ toString b.txs.length ++
+    String.join (b.txs.map fun t => " " ++ hexOrDash t)
+
+/-- `live` = the store object's own indexer, `ro:<v>` = the indexer of `NewReadOnly(v)` -/
+def parseView (w : String) : Option (Option Nat) :=
+  if w == "live" then some none
+  else if w.startsWith "ro:" then (w.drop 3).toString.toNat?.map some
+  else none
+
+/-- the process: the store, its indexer partition and the process-wide block cache -/
+def step (s : IState) (line : String) : IState × String :=
+  let bad := (s, "bad-op")
+  match words line with
+  | "iblk" :: h :: hash :: txs =>
+    match h.toNat?, ofHex hash, txs.mapM ofHex with
+    | some h, some hash, some txs => (s.apply (.indexBlock h hash txs), "ok")
+    | _, _, _ => bad
+  | ["iqc", h, bh] =>
+    match h.toNat?, ofHex bh with
+    | some h, some bh => (s.apply (.indexQC h bh), "ok")
+    | _, _ => bad
+  | ["reset"] => if s.st.main.length == 1 then (s.apply .reset, "ok") else bad
+  | ["purge"] => (s.apply .purgeCache, "ok")
+  | ["gbh", vw, h] =>
+    match parseView vw, h.toNat? with
+    | some v, some h => (s.apply (.getBlock v h false), showBlk (getBlockByHeight s.cache (s.view v) h).1)
+    | _, _ => bad
+  | ["gbhh", vw, h] =>
+    match parseView vw, h.toNat? with
+    | some v, some h => (s.apply (.getBlock v h true), showBlk (getBlockHeaderByHeight s.cache (s.view v) h).1)
+    | _, _ => bad
+  | ["gbx", vw, hash] =>
+    match parseView vw, ofHex hash with
+    | some v, some hash => (s, showBlk ((s.view v).getBlockByHash hash))
+    | _, _ => bad
+  | ["gqc", vw, h] =>
+    match parseView vw, h.toNat? with
+    | some v, some h =>
+      let r := getQCByHeight s.cache (s.view v) h
+      (s.apply (.getQC v h), "qc " ++ toString r.1.1 ++ " " ++ hexOrDash r.1.2.1 ++ " blk " ++
+        toString r.1.2.2.hHeight ++ " " ++ hexOrDash r.1.2.2.hash ++ " " ++ toString r.1.2.2.txs.length)
+    | _, _ => bad
+  | ["gtx", vw, hash] =>
+    match parseView vw, ofHex hash with
+    | some v, some hash => (s, "v " ++ hexOrDash ((s.view v).getTxByHash hash))
+    | _, _ => bad
+  | ["gtxs", vw, h] =>
+    match parseView vw, h.toNat? with
+    | some v, some h =>
+      let ts := (s.view v).txsByHeight h
+      (s, "n " ++ toString ts.length ++ String.join (ts.map fun t => " " ++ hexOrDash t))
+    | _, _ => bad
+  | ["commit"] =>
+    if s.st.main.length == 1 then let s' := s.apply (.store .commit); (s', "ok " ++ toString s'.st.version) else bad
+  | ["rollback", t] =>
+    match t.toNat? with
+    | some t =>
+      if s.st.main.length == 1 then
+        match s.rollback t with
+        | some _ => let s' := s.apply (.store (.rollback t)); (s', "ok " ++ toString s'.st.version)
+        | none => (s, "err")
+      else bad
+    | none => bad
+  | _ => let r := stepSt s.st line; ({ s with st := r.1 }, r.2)
+
 end Driver.C10
 
-def main : IO Unit := Driver.loopStateful ({} : Canopy.Store.State) Driver.C10.step
+def main : IO Unit := Driver.loopStateful ({} : Canopy.Store.IState) Driver.C10.step
